@@ -24,7 +24,7 @@ Definition kind_eqb (a b : kind) : bool :=
 
 Definition item_eqb (a b : item) : bool :=
   Z.eqb (it_iss a) (it_iss b) && Z.eqb (it_conn a) (it_conn b) && kind_eqb (it_kind a) (it_kind b)
-  && Z.eqb (it_tag a) (it_tag b) && Z.eqb (it_seq a) (it_seq b).
+  && Z.eqb (it_tag a) (it_tag b) && Z.eqb (it_seq a) (it_seq b) && Z.eqb (it_size a) (it_size b).
 
 (* never decreasing: the copies of one push delivered to a connection listed several times in a
    multi-target push carry the same counter; distinct items of one issuer never do *)
@@ -38,7 +38,7 @@ Definition issuers : list Z := [0; 1; 2; 3].
 
 (* tags of the requests of a history (0 = the front's error responses) *)
 Definition tags_of (ops : list op) : list Z :=
-  0 :: flat_map (fun o => match o with OSend _ _ _ _ tag _ _ _ => [tag] | _ => [] end) ops.
+  0 :: flat_map (fun o => match o with OSend _ _ _ _ tag _ _ _ _ => [tag] | _ => [] end) ops.
 
 Definition proj3 (i c t : Z) (l : list item) : list item :=
   filter (fun x => Z.eqb (it_iss x) i && Z.eqb (it_conn x) c && Z.eqb (it_tag x) t) l.
